@@ -32,8 +32,7 @@ Definition multi_dom_mixed (dec : dict -> bytes -> option (dict * bytes)) (can :
    dict_get (a_trailer a) K_Encrypt = None /\ dict_get (a_trailer a) K_XRefStm = None /\
    dict_get (a_trailer a) Xref.K_Index = None /\ dict_get (a_trailer a) K_Filter = None) /\
   1 + max_num (LoadsTableProofs.nums a ++ part_xids parts) <= u32_max /\ blen file <= u32_max /\
-  match parts with p :: _ => 25 < LoadsMultiMixed.p_xpos st a p (blen (RefWriter.header st (a_version a))) | [] => True end /\
-  LoadsMultiMixed.window_ok st parts file.
+  match parts with p :: _ => 25 < LoadsMultiMixed.p_xpos st a p (blen (RefWriter.header st (a_version a))) | [] => True end.
 
 Theorem loads_multi_mixed_full dec can st parts a file :
   multi_dom_mixed dec can st parts a file -> ref_write_multi st parts a = Some file ->
@@ -43,10 +42,10 @@ Theorem loads_multi_mixed_full dec can st parts a file :
                same_opt (dict_get (d_trailer d) k)
                         (dict_get (a_trailer a ++ [(bs "Size", OInt (Z.of_N (1 + max_num (LoadsTableProofs.nums a ++ part_xids parts))))]) k)).
 Proof.
-  intros [Hos [Hdom [Htops [Hu [Htr [Hn32 [Hlen [H25 Hwin]]]]]]]] Hw.
+  intros [Hos [Hdom [Htops [Hu [Htr [Hn32 [Hlen H25]]]]]]] Hw.
   destruct (ref_write_multi_xids st parts a file Hos Hw) as [Hndx H0x].
   pose proof (NoDup_app_l _ _ Hndx) as Hnd.
-  destruct (LoadsMultiMixed.loads_multi_mixed st a Hos dec can (part_xids parts) Hndx H0x Htops Htr Hn32 parts file Hu Hw Hlen Hdom H25 Hwin (fun n H => H))
+  destruct (LoadsMultiMixed.loads_multi_mixed st a Hos dec can (part_xids parts) Hndx H0x Htops Htr Hn32 parts file Hu Hw Hlen Hdom H25 (fun n H => H))
     as [d [t [Hl [Hv [P1 [P2 [t0 [Et [[Hwf [d0 [y0 [Hw0 Hsrc]]]] Hsz]]]]]]]]].
   exists d, t. split; [exact Hl|]. split; [exact Hv|]. split.
   2:{ intro k.
